@@ -139,31 +139,55 @@ theorem getAtt_valid (s : State) (p : Nat) (hi : Inv s) (hv : validPeer s p = tr
 
 /-! ## effect of one allowed step on the potentials -/
 
-/-- potential bounding the sends: Σ remaining attempts + hint refills left -/
-def phiSend (s : State) : Nat := remAtt s.att + s.credit
+/-- potential bounding the sends: Σ remaining attempts + free redirects left + (a refill is possible) + (no back-off owed) -/
+def phiSend (s : State) : Nat := remAtt s.att + freeLeft s + bumpOk s + owedFlag s
+
+theorem owesNowK_none (n : Nat) (sr : Bool) (k : Nat) (f : String) (h : (owesNowK n sr k f).isNone = true)
+    (hr : isRedirectFault f = true) : k < n := by
+  unfold owesNowK at h
+  split at h
+  · simp at h
+  · rename_i hc
+    simp only [hr, Bool.true_and, decide_eq_true_eq] at hc
+    omega
+
+theorem owesNowK_some (n : Nat) (sr : Bool) (k : Nat) (f : String) (hr : isRedirectFault f = true) (hk : n ≤ k) :
+    (owesNowK n sr k f).isNone = false := by
+  unfold owesNowK
+  have : (isRedirectFault f && decide (k ≥ n)) = true := by simp [hr, hk]
+  rw [if_pos this]; rfl
 
 theorem send_effect (s : State) (peer st : Nat) (rr sr rt : Bool) (px a : Nat) (r : Resp) (f : String) (hi : Inv s)
     (h : stepAllowed s (.send peer st rr sr rt px a r f) = true) :
     remAtt (step s (.send peer st rr sr rt px a r f)).att + 1 = remAtt s.att ∧
-    (step s (.send peer st rr sr rt px a r f)).credit = s.credit := by
+    owedFlag s = 1 ∧
+    bumpOk (step s (.send peer st rr sr rt px a r f)) ≤ (if isRedirectFault f then 1 else 0) := by
   simp only [stepAllowed, Bool.and_eq_true, decide_eq_true_eq] at h
-  obtain ⟨⟨⟨⟨⟨⟨⟨⟨⟨_, _⟩, _⟩, _⟩, hc⟩, hlt⟩, _⟩, _⟩, _⟩, _⟩ := h
+  obtain ⟨⟨⟨⟨⟨⟨⟨⟨⟨⟨_, _⟩, _⟩, _⟩, hc⟩, hlt⟩, _⟩, _⟩, _⟩, how⟩, hred⟩ := h
   obtain ⟨hl, hg⟩ := getAtt_valid s (charged peer px) hi hc
   have := remAtt_set s.att (charged peer px - 1) (getAtt s (charged peer px) + 1) hl
   rw [hg] at hlt this
-  refine ⟨?_, rfl⟩
-  simp only [step, setAtt]
-  rw [hg]
-  omega
+  refine ⟨?_, ?_, ?_⟩
+  · simp only [step, setAtt]
+    rw [hg]
+    omega
+  · simp [owedFlag, how.1]
+  · cases r with
+    | nlhint q =>
+      have : isRedirectFault f = true := by simpa using hred
+      simp [bumpOk, step, this]
+    | ok => simp [bumpOk, step]
+    | rpcerr => simp [bumpOk, step]
+    | regionerr => simp [bumpOk, step]
 
 theorem bump_effect (s : State) (q a : Nat) (hi : Inv s) (h : stepAllowed s (.bump q a) = true) :
-    remAtt (step s (.bump q a)).att ≤ remAtt s.att + 1 ∧ (step s (.bump q a)).credit + 1 = s.credit := by
+    remAtt (step s (.bump q a)).att ≤ remAtt s.att + 1 ∧ bumpOk s = 1 ∧ bumpOk (step s (.bump q a)) = 0 := by
   simp only [stepAllowed, Bool.and_eq_true, decide_eq_true_eq] at h
-  obtain ⟨⟨⟨⟨_, hv⟩, hc⟩, _⟩, _⟩ := h
+  obtain ⟨⟨⟨_, hv⟩, hlast⟩, _⟩ := h
   obtain ⟨hl, hg⟩ := getAtt_valid s q hi hv
   have := remAtt_set s.att (q - 1) (min (getAtt s q) (maxAtt - 1)) hl
   rw [hg] at this
-  constructor
+  refine ⟨?_, ?_, ?_⟩
   · simp only [step, setAtt]
     rw [hg]
     have hm : min s.att[q - 1] (maxAtt - 1) ≤ s.att[q - 1] := Nat.min_le_left _ _
@@ -174,8 +198,8 @@ theorem bump_effect (s : State) (q a : Nat) (hi : Inv s) (h : stepAllowed s (.bu
     · have hx' : maxAtt - 1 ≤ s.att[q - 1] := by omega
       rw [Nat.min_eq_right hx'] at this ⊢
       omega
-  · simp only [step]
-    omega
+  · simp [bumpOk, hlast]
+  · simp [bumpOk, step]
 
 theorem minStep_pos : 0 < minStep := by decide
 
@@ -251,6 +275,8 @@ theorem lex_mk {a1 a2 b1 b2 : Nat} (h : a1 < a2 ∨ (a1 = a2 ∧ b1 < b2)) :
   · exact Prod.Lex.left _ _ h
   · exact Prod.Lex.right _ h
 
+theorem owedFlag_le (s : State) : owedFlag s ≤ 1 := by unfold owedFlag; split <;> omega
+
 /-- every allowed non-final step strictly decreases the lexicographic rank (from any state satisfying the invariant) -/
 theorem rank_decreases_inv (s : State) (e : Ev) (hi : Inv s) (h : stepAllowed s e = true) (hf : isFinal e = false) :
     Prod.Lex (· < ·) (· < ·) (rank (step s e)) (rank s) := by
@@ -258,21 +284,46 @@ theorem rank_decreases_inv (s : State) (e : Ev) (hi : Inv s) (h : stepAllowed s 
   apply lex_mk
   cases e with
   | send peer st rr sr rt px a r f =>
-    obtain ⟨h1, h2⟩ := send_effect s peer st rr sr rt px a r f hi h
-    right
-    refine ⟨rank1_send .., ?_⟩
-    unfold rank2
-    omega
+    obtain ⟨h1, h2, h3⟩ := send_effect s peer st rr sr rt px a r f hi h
+    have hr1 := rank1_send s peer st rr sr rt px a r f
+    have hle := owedFlag_le (step s (.send peer st rr sr rt px a r f))
+    by_cases ho : (owesNowK s.cfg.n s.cfg.shortRead s.redirects f).isNone = true
+    · right
+      have hof : owedFlag (step s (.send peer st rr sr rt px a r f)) = 1 := by
+        show (if (owesNowK s.cfg.n s.cfg.shortRead s.redirects f).isNone then 1 else 0) = 1
+        rw [if_pos ho]
+      refine ⟨by unfold rankA; omega, ?_⟩
+      unfold rank2
+      by_cases hr : isRedirectFault f = true
+      · have hk := owesNowK_none _ _ _ _ ho hr
+        have hfl : freeLeft (step s (.send peer st rr sr rt px a r f)) + 1 = freeLeft s := by
+          simp only [freeLeft, step, hr, if_true]; omega
+        rw [if_pos hr] at h3
+        omega
+      · have hfl : freeLeft (step s (.send peer st rr sr rt px a r f)) = freeLeft s := by
+          simp only [freeLeft, step]; simp [hr]
+        rw [if_neg hr] at h3
+        omega
+    · left
+      have hof : owedFlag (step s (.send peer st rr sr rt px a r f)) = 0 := by
+        show (if (owesNowK s.cfg.n s.cfg.shortRead s.redirects f).isNone then 1 else 0) = 0
+        rw [if_neg ho]
+      unfold rankA; omega
   | bump q a =>
-    obtain ⟨h1, h2⟩ := bump_effect s q a hi h
+    obtain ⟨h1, h2, h3⟩ := bump_effect s q a hi h
     right
-    refine ⟨rank1_bump .., ?_⟩
+    have hA : rankA (step s (.bump q a)) = rankA s := by
+      unfold rankA; rw [rank1_bump]; rfl
+    refine ⟨hA, ?_⟩
     unfold rank2
+    have hfl : freeLeft (step s (.bump q a)) = freeLeft s := rfl
     omega
   | backoff k ms =>
     obtain ⟨h1, _, _⟩ := backoff_effect s k ms hi h
     left
-    exact h1
+    have := owedFlag_le (step s (.backoff k ms))
+    unfold rankA
+    omega
   | result k b => simp [isFinal] at hf
 
 /-! ## accepted runs -/
@@ -319,28 +370,81 @@ def isBump : Ev → Bool | .bump .. => true | _ => false
 def isBackoff : Ev → Bool | .backoff .. => true | _ => false
 def phiFin (s : State) : Nat := if s.done then 0 else 1
 
+/-- counting with a potential and a cost: events selected by `P` are paid by the potential or by events selected by `C` -/
+theorem run_count2 (Φ : State → Nat) (P C : Ev → Bool)
+    (hstep : ∀ s e, Inv s → stepAllowed s e = true →
+      Φ (step s e) + (if P e then 1 else 0) ≤ Φ s + (if C e then 1 else 0)) :
+    ∀ (es : List Ev) (s s' : State), Inv s → run s es = some s' →
+      Φ s' + (es.filter P).length ≤ Φ s + (es.filter C).length := by
+  intro es
+  induction es with
+  | nil => intro s s' _ h; simp [run] at h; subst h; simp
+  | cons e es ih =>
+    intro s s' hi h
+    obtain ⟨ha, h2⟩ := run_cons s e es s' h
+    have h3 := ih (step s e) s' (inv_step s e hi) h2
+    have h4 := hstep s e hi ha
+    by_cases hp : P e = true <;> by_cases hc : C e = true <;> simp [List.filter, hp, hc] at h4 ⊢ <;> omega
+
 theorem phiSend_step (s : State) (e : Ev) (hi : Inv s) (h : stepAllowed s e = true) :
-    phiSend (step s e) + (if isSend e then 1 else 0) ≤ phiSend s := by
+    phiSend (step s e) + (if isSend e then 1 else 0) ≤ phiSend s + (if isBackoff e then 1 else 0) := by
   unfold phiSend
   cases e with
   | send peer st rr sr rt px a r f =>
-    obtain ⟨h1, h2⟩ := send_effect s peer st rr sr rt px a r f hi h
-    simp [isSend]; omega
+    obtain ⟨h1, h2, h3⟩ := send_effect s peer st rr sr rt px a r f hi h
+    have hle := owedFlag_le (step s (.send peer st rr sr rt px a r f))
+    simp only [isSend, isBackoff, if_true, Bool.false_eq_true, if_false]
+    by_cases hr : isRedirectFault f = true
+    · rw [if_pos hr] at h3
+      by_cases hk : s.cfg.n ≤ s.redirects
+      · have hof : owedFlag (step s (.send peer st rr sr rt px a r f)) = 0 := by
+          show (if (owesNowK s.cfg.n s.cfg.shortRead s.redirects f).isNone then 1 else 0) = 0
+          rw [owesNowK_some _ _ _ _ hr hk]; rfl
+        have hfl : freeLeft (step s (.send peer st rr sr rt px a r f)) = 0 := by
+          simp only [freeLeft, step, hr, if_true]; omega
+        omega
+      · have hfl : freeLeft (step s (.send peer st rr sr rt px a r f)) + 1 = freeLeft s := by
+          simp only [freeLeft, step, hr, if_true]; omega
+        omega
+    · rw [if_neg hr] at h3
+      have hfl : freeLeft (step s (.send peer st rr sr rt px a r f)) = freeLeft s := by
+        simp only [freeLeft, step]; simp [hr]
+      omega
   | bump q a =>
-    obtain ⟨h1, h2⟩ := bump_effect s q a hi h
-    simp [isSend]; omega
-  | backoff k ms => simp [isSend, step]
-  | result k b => simp [isSend, step]
+    obtain ⟨h1, h2, h3⟩ := bump_effect s q a hi h
+    have hfl : freeLeft (step s (.bump q a)) = freeLeft s := rfl
+    have hof : owedFlag (step s (.bump q a)) = owedFlag s := rfl
+    simp [isSend, isBackoff]; omega
+  | backoff k ms =>
+    have hle := owedFlag_le (step s (.backoff k ms))
+    have h1 : remAtt (step s (.backoff k ms)).att = remAtt s.att := rfl
+    have h2 : freeLeft (step s (.backoff k ms)) = freeLeft s := rfl
+    have h3 : bumpOk (step s (.backoff k ms)) = bumpOk s := rfl
+    simp [isSend, isBackoff]; omega
+  | result k b =>
+    have h1 : remAtt (step s (.result k b)).att = remAtt s.att := rfl
+    have h2 : freeLeft (step s (.result k b)) = freeLeft s := rfl
+    have h3 : bumpOk (step s (.result k b)) = bumpOk s := rfl
+    have h4 : owedFlag (step s (.result k b)) = owedFlag s := rfl
+    simp [isSend, isBackoff]; omega
 
-theorem credit_step (s : State) (e : Ev) (hi : Inv s) (h : stepAllowed s e = true) :
-    (step s e).credit + (if isBump e then 1 else 0) ≤ s.credit := by
+/-- a refill (`bump`) needs a leader-hint reply first: bumps are paid by sends -/
+theorem bumpOk_step (s : State) (e : Ev) (hi : Inv s) (h : stepAllowed s e = true) :
+    bumpOk (step s e) + (if isBump e then 1 else 0) ≤ bumpOk s + (if isSend e then 1 else 0) := by
   cases e with
-  | send peer st rr sr rt px a r f => simp [isBump, step]
+  | send peer st rr sr rt px a r f =>
+    obtain ⟨_, _, h3⟩ := send_effect s peer st rr sr rt px a r f hi h
+    have : bumpOk (step s (.send peer st rr sr rt px a r f)) ≤ 1 := by split at h3 <;> omega
+    simp [isSend, isBump]; omega
   | bump q a =>
-    obtain ⟨_, h2⟩ := bump_effect s q a hi h
-    simp [isBump]; omega
-  | backoff k ms => simp [isBump, step]
-  | result k b => simp [isBump, step]
+    obtain ⟨_, h2, h3⟩ := bump_effect s q a hi h
+    simp [isSend, isBump]; omega
+  | backoff k ms =>
+    have h3 : bumpOk (step s (.backoff k ms)) = bumpOk s := rfl
+    simp [isSend, isBump, h3]
+  | result k b =>
+    have h3 : bumpOk (step s (.result k b)) = bumpOk s := rfl
+    simp [isSend, isBump, h3]
 
 theorem rank1_step (s : State) (e : Ev) (hi : Inv s) (h : stepAllowed s e = true) :
     rank1 (step s e) + (if isBackoff e then 1 else 0) ≤ rank1 s := by
@@ -385,7 +489,7 @@ theorem writeFlags_run (c : Cfg) (es : List Ev) (s s' : State) (hc : s.cfg = c) 
     cases e with
     | send peer st rr sr rt px a r f =>
       simp only [stepAllowed, Bool.and_eq_true] at ha
-      rw [← hc]; exact ha.1.2
+      rw [← hc]; exact ha.1.1.2
     | bump q a => rfl
     | backoff k ms => rfl
     | result k b => rfl
@@ -400,7 +504,7 @@ theorem retryMarked_run (es : List Ev) (s s' : State) (h : run s es = some s') :
     | send peer st rr sr rt px a r f =>
       simp only [stepAllowed, Bool.and_eq_true] at ha
       simp only [retryMarkedFrom, Bool.and_eq_true]
-      exact ⟨ha.1.1.2, by simpa [step] using ih'⟩
+      exact ⟨ha.1.1.1.2, by simpa [step] using ih'⟩
     | bump q a => simpa [retryMarkedFrom, step] using ih'
     | backoff k ms => simpa [retryMarkedFrom, step] using ih'
     | result k b => simpa [retryMarkedFrom, step] using ih'
@@ -522,7 +626,7 @@ theorem owedNow_run (k : String) (rest : List Ev) (s s' : State) (ho : s.owedNow
     cases e with
     | send peer st rr sr rt px a r f =>
       simp only [stepAllowed, Bool.and_eq_true] at ha
-      have := ha.2.1
+      have := ha.1.2.1
       rw [ho] at this
       simp at this
     | bump q a =>
@@ -555,7 +659,7 @@ theorem owedBusy_run (st : Nat) (rest : List Ev) (s s' : State) (ho : s.owedBusy
     cases e with
     | send peer st' rr sr rt px a r f =>
       simp only [stepAllowed, Bool.and_eq_true] at ha
-      have hb := ha.2.2
+      have hb := ha.1.2.2
       rw [hc] at hb
       simp only [Bool.or_false, Bool.not_eq_true'] at hb
       have hne : st ≠ st' := by
@@ -585,28 +689,28 @@ theorem owedBusy_run (st : Nat) (rest : List Ev) (s s' : State) (ho : s.owedBusy
       simp only [backoffBeforeSend]
       exact ih (step s (.result kk b)) (by simpa [step] using ho) (by simpa [step] using hc) h2
 
-theorem discipline_run (sr : Bool) (es : List Ev) (s s' : State) (hc : s.cfg.shortRead = sr) (h : run s es = some s') :
-    propBackoffDiscipline sr es = true := by
+theorem discipline_run (n : Nat) (sr : Bool) (es : List Ev) (s s' : State) (hn : s.cfg.n = n) (hc : s.cfg.shortRead = sr)
+    (h : run s es = some s') : disciplineFrom n sr s.redirects es = true := by
   induction es generalizing s with
-  | nil => simp [propBackoffDiscipline]
+  | nil => simp [disciplineFrom]
   | cons e es ih =>
     obtain ⟨_, h2⟩ := run_cons s e es s' h
-    have ih' := ih (step s e) (by rw [step_cfg]; exact hc) h2
+    have ih' := ih (step s e) (by rw [step_cfg]; exact hn) (by rw [step_cfg]; exact hc) h2
     cases e with
     | send peer st rr srd rt px a r f =>
-      simp only [propBackoffDiscipline, Bool.and_eq_true]
-      refine ⟨⟨?_, ?_⟩, ih'⟩
-      · cases ho : owesNow sr f with
+      simp only [disciplineFrom, Bool.and_eq_true]
+      refine ⟨⟨?_, ?_⟩, by simpa [step] using ih'⟩
+      · cases ho : owesNowK n sr s.redirects f with
         | none => rfl
         | some k =>
-          exact owedNow_run k es (step s (.send peer st rr srd rt px a r f)) s' (by simp [step, hc, ho]) h2
+          exact owedNow_run k es (step s (.send peer st rr srd rt px a r f)) s' (by simp [step, hn, hc, ho]) h2
       · cases hb : owesBusy sr f with
         | false => rfl
         | true =>
           simp only [Bool.not_true, Bool.false_or]
           exact owedBusy_run st es (step s (.send peer st rr srd rt px a r f)) s' (by simp [step, hc, hb]) (by simp [step]) h2
-    | bump q a => simpa [propBackoffDiscipline] using ih'
-    | backoff k ms => simpa [propBackoffDiscipline] using ih'
-    | result k b => simpa [propBackoffDiscipline] using ih'
+    | bump q a => simpa [disciplineFrom, step] using ih'
+    | backoff k ms => simpa [disciplineFrom, step] using ih'
+    | result k b => simpa [disciplineFrom, step] using ih'
 
 end CGV.Retry
